@@ -9,8 +9,8 @@ CONSTANTS
   MedP = 4
   HighP = 4
   Cooldown = 2
-  EvictThreshold = 1
-  EvictInterval = 4
+  EvictThreshold = 5
+  EvictInterval = 2
   TP = 0
   Hayabusa = 0
   MinStake = 1
